@@ -260,7 +260,7 @@ ${body}'''
             # Attempt to match text/html or application/json, if those don't
             # match, we will fall through to defaulting to text/plain
             acceptable = accept.acceptable_offers(
-                ['text/html', 'application/json']
+                ['text/html', 'application/json', 'text/plain']
             )
             acceptable = [offer[0] for offer in acceptable] + ['text/plain']
             match = acceptable[0]
